@@ -62,7 +62,7 @@ FO_RULE = ("Scenarios are drawn from the seeded PRNG (clients, keys, Gets with b
 prop("C02", quick={"runs": 8000}, thorough={"runs": 100000000, "budget_s": 600}, level="fault_enumeration",
      rule=FO_RULE + "Half of the runs come in families of 16 that share one small scenario while the failing backend call sweeps over "
      "every ordinal (Read ordinals 0-7, then Write ordinals 0-7) under varying schedules; the other half inject failures at random "
-     "ordinals of larger scenarios (incl. the UpdateTTL re-store); in 10 % the backend reports expired entries with the bare ErrExpired sentinel, without the item. Non-trivial: two Gets of different clients on one key overlapped; "
+     "ordinals of larger scenarios (incl. the UpdateTTL re-store); in 10 % the backend reports expired entries with the bare ErrExpired sentinel, without the item; one run in eight has a waiter on a background update while Gets of other keys arrive around its end. Non-trivial: two Gets of different clients on one key overlapped; "
      "distinct = distinct (scenario, schedule signature).",
      rules=["C02.R1 wrong-key", "C02.R2 unfinished-or-failed-build", "C02.R3 fabricated (nil / zero value with nil error)",
             "C02.R4 foreign or unknown error"],
@@ -143,7 +143,7 @@ prop("C12", quick={"runs": 6000}, thorough={"runs": 100000000, "budget_s": 600},
      "EvictFraction in (0,1], three strategies; in 40 % of the LFU runs some entries arrive through Restore from a cache with the LRU strategy that had served them a few times; the real janitor/eviction runs as a scheduled task. A fifth of the runs: reads racing each other before an LRU/LFU cycle; "
      "another fifth: a concurrent phase of writes / deletes with janitor cycles in between, then quiet cycles judged against Walk snapshots. Non-trivial: at least one cycle.",
      rules=["C12.R1 no trigger -> nothing removed", "C12.R2 amount (fraction / down to CountSoftLimit*(1-f) within one entry)",
-            "C12.R3 max rank(removed) <= min rank(kept) under the strategy, ranks from the harness access log (an entry restored from elsewhere: between its serves here and the sum of both histories; removed entries are judged by the lower end, kept ones by the upper end)", "C12.R4 cache_evict equals entries removed"],
+            "C12.R3 max rank(removed) <= min rank(kept) under the strategy, ranks from the harness access log (an entry restored from elsewhere: between its serves here and the sum of both histories; removed entries are judged by the lower end, kept ones by the upper end)", "C12.R4 cache_evict equals entries removed; the workload's own counters (delete, write, hit, miss, expired) do not move during a cleanup cycle"],
      probes=["cycle_without_trigger", "cycle_count_breach", "cycle_eviction_needed", "cycle_memory_limit_breach", "quiet_cycle_count_breach", "order_checked", "long_expired_entry_purged_in_eviction_cycle", "overlapping_serves_of_one_key", "entry_served_elsewhere_restored"])
 prop("C08", quick={"runs": 40000}, thorough={"runs": 100000000, "budget_s": 600},
      arch32={"thorough_runs": 100000, "workers": 2},
@@ -188,7 +188,7 @@ prop("C14", quick={"runs": 6000}, thorough={"runs": 100000000, "budget_s": 600},
      probes=["cache_imported", "importer_cache_unknown_to_exporter", "types_hash_fresh_process_evaluations", "zero_types_hash_transfer", "concurrent_imports_from_one_handler"])
 prop("C15", quick={"runs": 9000}, thorough={"runs": 100000000, "budget_s": 600}, level="fault_enumeration",
      rule=TR_RULE + "InvalidationIndex over 1-3 cache names with 1-3 deleters each (real backends behind a fault wrapper), generated label/key incidence structures "
-     "(several labels per key, shared keys, repeated labelling, unused labels, labelled-but-absent keys, duplicated label arguments; in 15 % cache names and keys whose concatenation is ambiguous under a separator). A third of the runs are "
+     "(several labels per key, shared keys, repeated labelling, unused labels, labelled-but-absent keys, duplicated label arguments; in 15 % cache names and keys whose concatenation is ambiguous under a separator, in 10 % a constructed xxhash64 collision pair as keys). A third of the runs are "
      "fault-free sequences; a third come in families of 12 sharing one structure while the failing Delete ordinal sweeps 0..11 (every delete position), each "
      "followed by a fault-free retry (the same labels in one call, or one call per label); a third run AddLabels / AddCache / InvalidateByLabels / writes concurrently; every 12th run injects the failure while "
      "other tasks AddLabels concurrently and ends with a fault-free sweep over all labels; every 12th run lets 2-3 clients invalidate the same labels at once with one failing Delete. In 20 % the constructor's "
